@@ -1,0 +1,38 @@
+//go:build verif
+
+package kv
+
+import "fmt"
+
+// VerifC03CompactSync runs one compaction job of the family (the body of the goroutine that
+// family.compact() starts: backgroundCompactionJob) on the caller's goroutine, so that the
+// verification harness can observe its error or recover from its panic. It does not look at
+// the number of level-0 files first (Family.Compact() requires more than one), so a single
+// level-0 file exercises the trivial-move branch of compactJob.Run.
+func VerifC03CompactSync(f Family) error {
+	fam, ok := f.(*family)
+	if !ok {
+		return fmt.Errorf("VerifC03CompactSync: not a *family")
+	}
+	if !fam.compacting.CompareAndSwap(false, true) {
+		return fmt.Errorf("VerifC03CompactSync: compaction already running")
+	}
+	defer fam.compacting.Store(false)
+	return fam.backgroundCompactionJob()
+}
+
+// VerifC03SetMaxFileSize overrides the family's output file size limit for the following compaction
+// jobs (0 restores the value derived from FamilyOption.MaxFileSize in newFamily).
+func VerifC03SetMaxFileSize(f Family, maxFileSize uint32) {
+	fam, ok := f.(*family)
+	if !ok {
+		return
+	}
+	if maxFileSize == 0 {
+		maxFileSize = defaultMaxFileSize
+		if fam.option.MaxFileSize > 0 {
+			maxFileSize = fam.option.MaxFileSize
+		}
+	}
+	fam.maxFileSize = maxFileSize
+}
